@@ -170,7 +170,14 @@ def validate(workdir, tspec, tcfg, traces, jobs=None, timeout=1800):
         if p.returncode != 0 or not os.path.exists(of) or 'No error has been found' not in logtxt:
             raise Infra('trace validation run failed (chunk %d):\n%s' % (k, logtxt[-3000:]))
         o = json.load(open(of))
-        viol += [(x['t'], x['p']) for x in o['violations']]
+        for x in o['violations']:
+            if x['p'].startswith('INFRA_') and x['t'] < 9000000:
+                # the monitor found the machinery inconsistent with itself (e.g. two independent verifiers disagree)
+                raise Infra('monitor reports a machinery inconsistency: %s in trace %s' % (x['p'], x['t']))
+            if x['p'].startswith('DRIFT_'):
+                drift.append((x['t'], x['p']))
+            elif not x['p'].startswith('INFRA_'):
+                viol.append((x['t'], x['p']))
         drift += [(x['t'], x['k']) for x in o['drift']]
         for a, b in o['stats'].items():
             stats[a] += b
